@@ -151,6 +151,14 @@ pub fn verify_registration_store_effect(rec: &RunRecord, c: &Ceremony, o: &OpRec
     if cred.rp_id != rp_id {
         out.push(("reg-store-rpid", format!("stored RP ID {:?}, effective RP ID {rp_id:?}", cred.rp_id)));
     }
+    // the entities handed to the store with the record name the same relying party (a store may index by them)
+    for e in rec.events_of(o.actor, o.idx) {
+        if let crate::world::Ev::Save { cred: c2, rp_id: entity_rp, .. } = &e.ev {
+            if entity_rp != &c2.rp_id {
+                out.push(("reg-store-entity", format!("save_credential was handed a credential for {:?} together with an RP entity whose id is {entity_rp:?}", c2.rp_id)));
+            }
+        }
+    }
     match cred.key_parts() {
         Some(sp) => {
             let matches = match (&sp.d, &parts.x, &parts.y) {
